@@ -193,7 +193,13 @@ impl<'tcx> Ex<'tcx> {
             return arr(vec![s("k"), tyj, arr(vec![s("fn"), self.callee_json(*d, args, env)])]);
         }
         if let Some(si) = c.const_.try_eval_scalar_int(self.tcx, env) {
-            return arr(vec![s("k"), tyj, self.scalar_int_json(si, t)]);
+            let mut v = vec![s("k"), tyj, self.scalar_int_json(si, t)];
+            // a whole enum value that fits one scalar (`const X: Result<(), E> = Err(E::V)`):
+            // name the variant the tag selects
+            if let Some(name) = self.scalar_enum_variant(si, t, env) {
+                v.push(arr(vec![s("variant"), s(name)]));
+            }
+            return arr(v);
         }
         // pointers to statics: name the static
         if !matches!(c.const_, mir::Const::Unevaluated(..)) || true {
@@ -222,6 +228,52 @@ impl<'tcx> Ex<'tcx> {
             v.push(s(self.id(u.def)));
         }
         arr(v)
+    }
+
+    /// variant of an enum value that is represented by one scalar (the tag at offset 0 is the
+    /// whole value), decoded from the layout: direct tags through the discriminants, niche tags
+    /// through the niche range (everything outside it is the untagged variant)
+    fn scalar_enum_variant(&self, si: ty::ScalarInt, t: Ty<'tcx>, env: TypingEnv<'tcx>) -> Option<String> {
+        let ty::Adt(adt, _) = t.kind() else { return None };
+        if !adt.is_enum() {
+            return None;
+        }
+        let layout = self.tcx.layout_of(env.as_query_input(t)).ok()?;
+        if layout.size != si.size() {
+            return None;
+        }
+        let bits = si.to_bits(si.size());
+        match &layout.variants {
+            rustc_abi::Variants::Multiple { tag, tag_encoding, tag_field, .. } => {
+                if layout.fields.offset(tag_field.as_usize()).bytes() != 0 || tag.size(&self.tcx) != si.size() {
+                    return None;
+                }
+                match tag_encoding {
+                    rustc_abi::TagEncoding::Direct => {
+                        for (idx, discr) in adt.discriminants(self.tcx) {
+                            let mask = if si.size().bits() >= 128 { u128::MAX } else { (1u128 << si.size().bits()) - 1 };
+                            if discr.val & mask == bits {
+                                return Some(adt.variant(idx).name.to_string());
+                            }
+                        }
+                        None
+                    }
+                    rustc_abi::TagEncoding::Niche { untagged_variant, niche_variants, niche_start } => {
+                        let mask = if si.size().bits() >= 128 { u128::MAX } else { (1u128 << si.size().bits()) - 1 };
+                        let rel = bits.wrapping_sub(*niche_start) & mask;
+                        let first = niche_variants.start().as_u32() as u128;
+                        let last = niche_variants.end().as_u32() as u128;
+                        if rel <= last - first {
+                            let idx = rustc_abi::VariantIdx::from_u32((first + rel) as u32);
+                            Some(adt.variant(idx).name.to_string())
+                        } else {
+                            Some(adt.variant(*untagged_variant).name.to_string())
+                        }
+                    }
+                }
+            }
+            _ => None,
+        }
     }
 
     fn callee_json(&self, d: DefId, args: ty::GenericArgsRef<'tcx>, env: TypingEnv<'tcx>) -> J {
